@@ -13,6 +13,8 @@ def worklist_program(rng, pid, dev, nops, unit=Fraction(1), maxunits=16, wlmax=N
     fl = {"comp": comps, "norm": comps}
     fl.update(flags or {})
     hdr = gen.header(pid, dev, unit, wlmax, lws, autosplit=autosplit, diti=diti, flags=fl)
+    if dev == "evo" and rng.random() < 0.1:
+        hdr["wl"]["alias"] = True  # constructed through the deprecated name `robotools.Worklist`
     sess = gen.Session(hdr)
     if sess.broken:
         return sess.prog
